@@ -481,7 +481,151 @@ def rule_o5(ctx, facts):
              "drop_tree_nodes does not free values under control of its flag")
 
 
+# ------------------------------------------------------------------------------------------------ O6
+
+class ReplacedBinSpec(Spec):
+    """A tree bin B that is overwritten in its table slot must, before the next lock acquisition / return, be either re-published (stored
+    into a table) or retired -- exactly one of the two.  typestate = (phase, holders of B, reused, retired)"""
+
+    def __init__(self, body, facts, lock_points, bexact_of, origin_table_of):
+        self.body = body
+        self.an = anchors(facts)
+        self.lock_points = lock_points        # {call point: B-exact locals}
+        self.all_locks = set()
+        self.errors = {}
+        self.fl = flow(body)
+        self.origin = origin_table_of         # {lock point: set(locals of origin table closure)}
+
+    def initial(self):
+        return ("idle", None, frozenset(), False, False)
+
+    def err(self, pt, why):
+        self.errors[(pt, why)] = True
+
+    def _check_end(self, pt, ts, what):
+        phase, lk, holders, reused, retired = ts
+        if phase == "unlinked":
+            if not reused and not retired:
+                self.err(pt, "a tree bin that was replaced in its table slot is neither re-published nor retired before %s: the bin, its nodes and "
+                             "their key copies are leaked" % what)
+            elif reused and retired:
+                self.err(pt, "a tree bin is retired although it was re-published into the new table: it is freed while reachable")
+
+    def on_stmt(self, pt, st, ts, env):
+        phase, lk, holders, reused, retired = ts
+        if phase != "idle" and st["k"] == "storage_dead" and st["local"] in holders:
+            return [(phase, lk, holders - {st["local"]}, reused, retired)]
+        if phase == "idle" or st["k"] != "assign" or st["dst"]["proj"]:
+            return [ts]
+        dst = st["dst"]["local"]
+        src = op_local(st["rv"]["use"]) if "use" in st["rv"] else None
+        B = self.lock_points.get(lk, set())
+        if src is not None and (src in B or src in holders):
+            if dst not in holders and dst not in B:
+                holders = holders | {dst}
+            if "move" in st["rv"]["use"] and src in holders:
+                holders = holders - {src}
+        elif dst in holders:
+            holders = holders - {dst}
+        return [(phase, lk, holders, reused, retired)]
+
+    def on_term(self, pt, term, ts, env):
+        phase, lk, holders, reused, retired = ts
+        if term["k"] == "drop" and "MutexGuard" in term["ty"]["s"] and phase == "locked":
+            return [("idle", None, frozenset(), False, False)]   # critical section left without replacing the bin
+        return [ts]
+
+    def on_call(self, pt, c, ts, env):
+        phase, lk, holders, reused, retired = ts
+        if pt in self.all_locks:
+            self._check_end(pt, ts, "the next bin is locked")
+            if pt in self.lock_points:
+                return [("locked", pt, frozenset(), False, False)]
+            return [("idle", None, frozenset(), False, False)]
+        if phase == "idle":
+            return [ts]
+        B = self.lock_points.get(lk, set()) | holders
+        s = callee_str(c)
+        if s.endswith("mem::drop") and c.args and op_root(c.args[0]) is not None and "MutexGuard" in self.body.ty(op_root(c.args[0]))["s"] and phase == "locked":
+            return [("idle", None, frozenset(), False, False)]
+        moved = {op_local(a) for a in c.args if "move" in a and op_local(a) in holders}
+        if moved and not (s.endswith("store_bin") or s.endswith("cas_bin") or self.an.is_retire(c) is not None):
+            holders = holders - moved
+        if s.endswith("raw::Table::store_bin") or s.endswith("raw::Table::cas_bin"):
+            vl = op_root(c.args[2 if s.endswith("store_bin") else 3])
+            tl = op_root(c.args[0])
+            on_origin = tl is not None and bool(self.fl.closure_locals(tl) & self.origin.get(lk, set()))
+            if vl in B:
+                if not on_origin:
+                    reused = True
+            elif on_origin:
+                phase = "unlinked"
+            return [(phase, lk, holders, reused, retired)]
+        k = self.an.is_retire(c)
+        if k is not None and op_root(c.args[k]) in B:
+            if retired:
+                self.err(pt, "the replaced tree bin is retired twice")
+            return [(phase, lk, holders, reused, True)]
+        return [ts]
+
+    def on_return(self, pt, ts, env):
+        self._check_end(pt, ts, "the function returns")
+
+
+def rule_o6(ctx, facts):
+    from .protocol import validated_regions
+    n = 0
+    for b in facts.bodies:
+        vs = [v for v in validated_regions(b) if ("node::TreeBin", "lock") in v.region.receiver_fields()]
+        if not vs:
+            continue
+        fl = flow(b)
+        lock_points, origin = {}, {}
+        for v in vs:
+            exact = set()
+            for c0 in v.bin_calls:
+                b0 = c0.dst_local()
+                exact.add(b0)
+                # single-definition temporaries copied from it
+                for l in range(len(b.locals)):
+                    ds = [d for d in b.defs.get(l, []) if d[1] in ("assign", "call", "arg")]
+                    if len(ds) == 1 and ds[0][1] == "assign" and "use" in ds[0][2]["rv"] and op_local(ds[0][2]["rv"]["use"]) == b0 and not b.local_name(l):
+                        exact.add(l)
+                tl = op_root(c0.args[0])
+                if tl is not None:
+                    origin.setdefault(v.region.call.point, set()).update(fl.closure_locals(tl))
+            lock_points[v.region.call.point] = exact
+        spec = ReplacedBinSpec(b, facts, lock_points, None, origin)
+        spec.all_locks = {r.call.point for r in regions(b)}
+        # named integer counters compared with constants inside the tree-bin critical sections (the split counters of transfer)
+        key_ints = set()
+        for v in vs:
+            for blk in {p[0] for p in v.region.points}:
+                for st in b.blocks[blk]["stmts"]:
+                    if st["k"] == "assign" and st["rv"].get("bin") in ("Lt", "Le", "Gt", "Ge", "Eq", "Ne"):
+                        for x, y in ((st["rv"]["a"], st["rv"]["b"]), (st["rv"]["b"], st["rv"]["a"])):
+                            if op_local(x) is not None and "int" in y:
+                                l = op_local(x)
+                                for kind, data, pt in fl.sources(l):
+                                    if kind == "copy" and b.local_name(data):
+                                        key_ints.add(data)
+                                if b.local_name(l):
+                                    key_ints.add(l)
+        spec.key_ints = sorted(key_ints)
+        Esp(b, spec).run()
+        n += len(vs)
+        if spec.errors:
+            for (pt, why) in list(spec.errors)[:3]:
+                ctx.inst("O6", b, "replaced tree bin: retire xor re-publish", b.span_at(pt), False, why)
+        else:
+            ctx.inst("O6", b, "replaced tree bin: retire xor re-publish", b.span, True,
+                     "%d tree-bin lock region(s): whenever the bin is overwritten in its slot it is retired or re-published, never both, never neither" % len(vs))
+
+
 def run(ctx, facts):
+    ctx.rule("O6", "a tree bin overwritten in its table slot is retired or re-published into a table before the next lock / return -- exactly one of the two "
+                   "(ESP with interval refinement of the split counters)", floor=5, floor_note="transfer, clear, put, compute_if_present, replace_node")
+    rule_o6(ctx, facts)
     ctx.rule("O1", "owners produced by swap / boxed / failed CAS are consumed (retire, free, publish, return, asserted null)", floor=30,
              floor_note="12 swaps + 23 boxed + 1 CAS failure")
     ctx.rule("O2", "shared values: containers are freed without the values; superseded tree bins via defer_drop_without_values", floor=8)
